@@ -7,6 +7,11 @@
 
   Core Lean only.  Everything is structurally recursive so that `decide` can run it.
 
+  LIVE model (= /repo now, after the repair commits bca2980, 2a76dcb, b496d03, 9829a42):
+  `addLive` (= `addFixed` + flush), `isExitFixed`, `ccPushLive`, `handleTxs _ true`.
+  `add`, `isExit`, `addChecked`, `ccPushChecked`, `handleTxs _ false` model the code BEFORE those commits
+  and are kept for the regression theorems (`*_refuted`).
+
   Go facts the model makes explicit
   * `BlockCache.cache` is a `[]*blocksSameHeight`: slice entries are POINTERS.  A pointer
     is a `gid`; two entries with the same `gid` are the same Go object (same `Blocks` map).
@@ -187,6 +192,26 @@ def isExit (hash height : Nat) (c : BlockCache) : Bool :=
     if height < first.height || height > lastHeight c.cache then false
     else first.blocks.any (fun k => k.hash == hash)
 
+/-- `IsExit(hash, height)` since /repo commit 2a76dcb: looks into the entry of the requested height -/
+def isExitFixed (hash height : Nat) (c : BlockCache) : Bool :=
+  match c.cache with
+  | [] => false
+  | first :: _ =>
+    if height < first.height || height > lastHeight c.cache then false
+    else
+      match c.cache.find? (fun g => g.height == height) with
+      | some g => g.blocks.any (fun k => k.hash == hash)
+      | none => false
+
+/-- `^uint32(0)` -/
+def maxU32 : Nat := 4294967295
+
+/-- `Add` as it is in /repo now (commits bca2980 + 9829a42): repaired middle insert, and a slice longer
+    than `limit` (10240) is flushed with `clearLocked(^uint32(0))` instead of dead-locking. -/
+def addLive (limit : Nat) (b : Blk) (c : BlockCache) : BlockCache :=
+  let c' := addFixed b c
+  if c'.cache.length > limit then clear maxU32 c' else c'
+
 /-! ### ConfirmCache: `map[uint32]map[common.Hash][]*BlockConfirmData` -/
 
 structure Confirm where
@@ -221,6 +246,13 @@ def ccPushChecked (limit : Nat) (d : Confirm) (c : ConfirmCache) : Option Confir
   let c' := ccPush d c
   if c'.length > limit then none else some c'
 
+def ccClear (h : Nat) (c : ConfirmCache) : ConfirmCache := c.filter (fun e => !(e.1 ≤ h))
+
+/-- `Push` as it is in /repo now (commit 9829a42): more than `limit` heights → flush -/
+def ccPushLive (limit : Nat) (d : Confirm) (c : ConfirmCache) : ConfirmCache :=
+  let c' := ccPush d c
+  if c'.length > limit then ccClear maxU32 c' else c'
+
 /-- `Pop(height, hash)`: the hash entry is deleted, the (possibly empty) height entry stays -/
 def ccPop (height hash : Nat) (c : ConfirmCache) : List Confirm × ConfirmCache :=
   match alGet height c with
@@ -230,7 +262,6 @@ def ccPop (height hash : Nat) (c : ConfirmCache) : List Confirm × ConfirmCache 
     | none => ([], c)
     | some l => (l, alSet height (alDel hash hm) c)
 
-def ccClear (h : Nat) (c : ConfirmCache) : ConfirmCache := c.filter (fun e => !(e.1 ≤ h))
 
 def ccSize (c : ConfirmCache) : Nat :=
   (c.map (fun e => (e.2.map (fun x => x.2.length)).foldl (· + ·) 0)).foldl (· + ·) 0
